@@ -718,7 +718,7 @@ func runC16(x *xctx) *violation {
 	case k < 19:
 		n = []int{127, 128, 129, 130}[t.Choose(K, 4)]
 	default:
-		n = []int{255, 256, 257, 300}[t.Choose(K, 4)]
+		n = []int{255, 256, 257, 300, 384, 385, 520}[t.Choose(K, 7)]
 	}
 	nb := 0
 	if t.Bool(K, 35) {
